@@ -431,7 +431,7 @@ def run(prog, tier) -> Result:
         # what the mutators do to the list is decided by the typestate judges above (R12.1-R12.3)
         "QuantityMeta.register_converter": {"*"}, "QuantityMeta.remove_converter": {"*"},
         "MoneyMeta.register_converter": {"*"}, "MoneyMeta.remove_converter": {"*"}}, cg))
-    res.require("R12.4", 4)
+    res.require("R12.4", 2)
     # no function hands out the list itself (aliasing would bypass the owner API)
     leaks = []
     for fi in prog.all_functions():
